@@ -23,6 +23,9 @@ def gen_equiv(ctx, n):
             lens = sorted(lens, reverse=True)
         cases.append({'seed': r.randint(0, 10**6), 'kind': kind, 'nl': r.choice(['tanh', 'relu']), 'D': r.randint(1, 3), 'H': r.randint(1, 3), 'layers': r.randint(1, 3),
                       'bias': r.random() < 0.7, 'bf': r.random() < 0.5, 'bidir': r.random() < 0.5, 'B': B, 'T': T, 'lens': lens, 'input': inp, 'init': r.random() < 0.5})
+        if cases[-1]['layers'] > 1 and r.random() < 0.5:
+            # dropout configured, layers in eval mode: inactive in both implementations, on padded and on packed inputs
+            cases[-1].update(dropout=r.choice([0.3, 0.7]), eval=True)
     # dropout = 1 in train mode is deterministic in both implementations: every inter-layer output is dropped, the recurrent state never is
     for _ in range(max(3, n // 8)):
         kind = r.choice(['rnn', 'gru', 'lstm'])
